@@ -66,7 +66,7 @@ def enforcement_off_edges(ctx, enf_pred):
 def is_enf_origin(ctx):
     def pred(o):
         if o.kind in ("upvar", "param"):
-            return o.key[1] == "expiration_enforcement" or o.fields[-1:] == ("expiration_enforcement",)
+            return "enforcement" in str(o.key[1]) or o.fields[-1:] == ("expiration_enforcement",)
         return False
     return pred
 
@@ -123,7 +123,20 @@ def run(chk, prog):
                         ctx.site(creates[0]), path=ctx.describe_path(p2))
         # with enforcement OFF nothing may fail for expiry: check_expired must be reachable only via Safe edges
         safe_only = ctx.cfg.reach((0,), set(_safe_edges(ctx, U)))
-        chk.require(not (set(ksites) & safe_only), "R1", f, "off-means-off",
+        internal = check_expired_tests_enforcement(prog)
+        unguarded = []
+        for kb in ksites:
+            if kb not in safe_only:
+                continue
+            t = ctx.body.blocks[kb].term
+            passes = any(bool(ctx.origins.of_operand(a)) and all(is_enf_origin(ctx)(o) for o in ctx.origins.of_operand(a))
+                         for a in t.args[2:])
+            if internal and passes:
+                # check_expired(.., enforcement) makes the decision itself (R2 checks it does, before touching the clock)
+                U = list(U) + list(ctx.track_call(kb).pos_edges(0))
+                continue
+            unguarded.append(kb)
+        chk.require(not unguarded, "R1", f, "off-means-off",
                     "check_expired is reachable with enforcement switched off", ctx.site(ksites[0]))
         if fn == "tough::load_root":
             loops = ctx.cfg.sccs()
@@ -149,6 +162,14 @@ def _safe_edges(ctx, U):
     return out
 
 
+def check_expired_tests_enforcement(prog):
+    ctx = async_body(prog, CHECK_EXPIRED)
+    if ctx is None:
+        return False
+    U, n, probs = enforcement_off_edges(ctx, is_enf_origin(ctx))
+    return bool(U) and not probs
+
+
 def r2_check_expired(chk, prog):
     ctx = async_body(prog, CHECK_EXPIRED)
     if ctx is None:
@@ -171,7 +192,18 @@ def r2_check_expired(chk, prog):
         if edges:
             T.extend(edges)
     okb = ctx.ok_return_blocks()
-    path = ctx.cfg.witness_path(okb, T)
+    Uce, nt, probs = enforcement_off_edges(ctx, is_enf_origin(ctx))
+    for site, msg in probs:
+        chk.fail("R2", ctx.fn, "enforcement-test", "unrecognised-idiom: " + msg, site)
+    if Uce:
+        # the enforcement test lives inside check_expired: with enforcement off nothing of it may run
+        # (the clock is not even sampled: system_time() fails on a clock that stepped backward)
+        safe_only = ctx.cfg.reach((0,), set(_safe_edges(ctx, Uce)))
+        clock = [bb for bb, _ in ctx.calls(SYSTEM_TIME)]
+        chk.require(not (set(clock) & safe_only), "R2", ctx.fn, "off-means-off",
+                    "check_expired samples the clock (which can fail) although enforcement is switched off",
+                    ctx.site(clock[0]) if clock else None)
+    path = ctx.cfg.witness_path(okb, list(T) + list(Uce))
     chk.require(bool(T) and path is None, "R2", ctx.fn, "time-le-expires",
                 "check_expired returns Ok on a path that does not pass the edge on which "
                 "system_time() <= role.expires() holds", site_of(ctx.body.span), path=ctx.describe_path(path))
